@@ -51,6 +51,9 @@ func Sign(manifest []byte, cert *certloader.Certificate, opts crypto.SignerOpts)
 		return nil, err
 	}
 	root := doc.Root()
+	if root == nil {
+		return nil, errors.New("manifest has no root element")
+	}
 	// Update signer-related attributes
 	asi, err := setAssemblyIdentity(root, cert)
 	if err != nil {
